@@ -348,6 +348,8 @@ def run(ctx):
     repo = ctx.repo
     shared.reconsume_rule(ctx, 'C05.j', ['cirq-core/cirq/circuits/', 'cirq-core/cirq/ops/'], floor=2)
     shared.control_keys_cover_rule(ctx, 'C05.k', floor=4)
+    shared.control_index_monotone_rule(ctx, 'C05.l', ['cirq-core/cirq/circuits/'], floor=1)
+    ctx.decided.append('C05.l placement bookkeeping keeps, per control key, the latest moment that reads it (running maximum)')
     ctx.decided.append('C05.k the control keys the placement logic orders operations by cover every child of a wrapping operation')
     ctx.decided.append('C05.j a one-shot OP_TREE / Iterable argument is walked once: after it has been flattened into a local, the raw argument is not consumed again')
     ctx.decided += [
